@@ -95,16 +95,23 @@ def pkg_dirs_for(package):
 # -------------------------------------------------------------------------------------------------
 # replay (DESIGN 2.6): regenerate the counterexample as a unit test and run it natively
 # -------------------------------------------------------------------------------------------------
-def generate_playback(w, h, tier):
+def generate_playback(w, h, tier, sliced=False):
+    """Kani's concrete playback re-runs CBMC *without* formula slicing, which costs 3-6x the time
+    of the plain run and, for the lora-phy driver stack, more memory than the machine has.  With
+    `sliced` the slicer is switched back on (--cbmc-args --slice-formula): cheap, but values the
+    failing assertion does not depend on may be missing from the trace, so the generated test can
+    be unfaithful (it then dies inside Kani's playback library and is not counted).  Either way the
+    test only counts when it fails natively at the harness's own assertion on the real code."""
     if os.path.basename(h.file).startswith("c13_") and h.file.endswith("_gen.rs"):
         return synthesize_c13_replay(w, h, tier, None)
     cmd = lrv.kani_cmd(w.build, [h.fq()], os.path.join(w.scratch, "target"),
                        6 * (h.timeout or TIER_TIMEOUT[tier]),
-                       ["-Z", "concrete-playback", "--concrete-playback=print"])
+                       ["-Z", "concrete-playback", "--concrete-playback=print"]
+                       + (["--cbmc-args", "--slice-formula"] if sliced else []))
     env = dict(lrv.ENV)
     if lrv.BUILDS[w.build].get("rustflags"):
         env["RUSTFLAGS"] = lrv.BUILDS[w.build]["rustflags"]
-    log = os.path.join(w.logdir, "playback-gen-%s.log" % h.uid)
+    log = os.path.join(w.logdir, "playback-gen-%s%s.log" % (h.uid, "-sliced" if sliced else ""))
     # concrete playback runs CBMC without formula slicing (needs 2-4x the memory of the plain run);
     # it happens after the workers have finished, so it may use most of the machine
     lrv.run_cmd(cmd, os.path.join(w.scratch, "src"), log,
@@ -170,8 +177,13 @@ def native_playback(w, h, tests, prop):
         t = fix_playback_text(t)
         body += t + "\n"
         names += re.findall(r"fn (kani_concrete_playback_\w+)", t)
-    with open(cp, "a") as fh:
-        fh.write(body)
+    # (a second replay attempt for the same harness replaces the tests of the first)
+    marker = "\n// ---- generated by Kani concrete playback (counterexample) ----\n"
+    text = open(cp).read()
+    if marker in text:
+        text = text[:text.index(marker)]
+    with open(cp, "w") as fh:
+        fh.write(text + body)
     rdir = os.path.join(VERIF, "replays", prop)
     os.makedirs(rdir, exist_ok=True)
     rpath = os.path.join(rdir, "%s.rs" % h.uid)
@@ -384,15 +396,24 @@ def main():
                         entry["verdict"] = "known-finding"
                     else:
                         # replay natively before reporting
-                        tests, glog = generate_playback(w, h, tier)
-                        if not tests:
+                        # stage 1: playback test from the sliced formula (cheap); stage 2, only
+                        # when that did not reproduce: Kani's own unsliced playback
+                        rep, out, rpath, tests, glog = False, "", None, [], None
+                        is_gen = os.path.basename(h.file).startswith("c13_") and h.file.endswith("_gen.rs")
+                        for sliced in ([False] if is_gen else [True, False]):
+                            tests, glog = generate_playback(w, h, tier, sliced)
+                            if not tests:
+                                continue
+                            rep, out, rpath = native_playback(w, h, tests, prop)
+                            n_replays += 1
+                            if rep:
+                                break
+                        if not tests and not rep:
                             entry["verdict"] = "inconclusive"
                             entry["reason"] += " | no concrete playback generated (see %s)" % glog
                             status = max(status, 2) if status != 1 else 1
                             lines.append("INCONCLUSIVE property=%s harness=%s: no concrete playback generated: %s" % (prop, h.uid, entry["reason"][:400]))
                         else:
-                            rep, out, rpath = native_playback(w, h, tests, prop)
-                            n_replays += 1
                             entry["replay"] = out
                             if rep:
                                 n_viol += 1
